@@ -322,6 +322,14 @@ func C03(p *core.Program, r *core.Report) {
 	r.Count("decoder (length, CRC type) combinations", nCombos)
 
 	checkCRCEncoders(p, r)
+	// the buffer the CRC is computed over holds this block's bytes only: an object from a pool is reset first
+	bpFuncs := map[*ssa.Function]bool{}
+	for _, fn := range p.RepoFuncs() {
+		if fn.Pkg == p.Pkg(bp7) {
+			bpFuncs[fn] = true
+		}
+	}
+	r.Analysed["pooled_objects_in_pkg_bpv7"] = checkPooledObjectsReset(p, r, bpFuncs)
 	checkCRCConfig(p, r)
 	checkCRCFieldHelper(p, r)
 	checkCRCCreation(p, r)
